@@ -196,7 +196,7 @@ class Emitter:
                 return f'(ofZ N ({fr.numerator}))', 'T'
             if fr.numerator >= 2**53 or fr.denominator >= 2**53:
                 self.fail(node, 'literal not exactly representable as p/q of doubles')
-            return f'(div N (ofZ N ({fr.numerator})) (ofZ N ({fr.denominator})))', 'T'
+            return f'(ndiv N (ofZ N ({fr.numerator})) (ofZ N ({fr.denominator})))', 'T'
         self.fail(node, 'unsupported literal')
 
     def truthy(self, s, t):
@@ -205,7 +205,7 @@ class Emitter:
         if t == 'Z':
             return f'(negb ({s} =? 0))'
         if t == 'T':
-            return f'(negb (eqb N {s} (zero N)))'
+            return f'(negb (neqb N {s} (nzero N)))'
         raise TranslateError('truthy of ' + t)
 
     # ---- expressions; returns (coq_text, type)
@@ -221,7 +221,7 @@ class Emitter:
             if txt in ('np.pi', 'numpy.pi', 'math.pi'):
                 if m != 'Num':
                     self.fail(n, 'pi in Z mode')
-                return '(pi N)', 'T'
+                return '(npi N)', 'T'
             if txt in self.argtypes:
                 self.used.add(txt)
                 return self.coqname(txt), self.argtypes[txt]
@@ -231,7 +231,7 @@ class Emitter:
             if isinstance(n.op, ast.USub):
                 if isinstance(n.operand, ast.Constant) and m == 'Z':
                     return f'(-{s})', 'Z'
-                return (f'(- {s})', 'Z') if m == 'Z' and t == 'Z' else (f'(opp N {s})', 'T')
+                return (f'(- {s})', 'Z') if m == 'Z' and t == 'Z' else (f'(nopp N {s})', 'T')
             if isinstance(n.op, ast.UAdd):
                 return s, t
             if isinstance(n.op, (ast.Not, ast.Invert)):
@@ -270,15 +270,15 @@ class Emitter:
                     b, tb = f'(ofZ N {b})', 'T'
                 if ta != 'T' or tb != 'T':
                     self.fail(n, f'Num arithmetic on {ta},{tb}')
-                tab = {ast.Add: 'add', ast.Sub: 'sub', ast.Mult: 'mul', ast.Div: 'div', ast.Mod: 'fmod'}
+                tab = {ast.Add: 'nadd', ast.Sub: 'nsub', ast.Mult: 'nmul', ast.Div: 'ndiv', ast.Mod: 'nfmod'}
                 if type(op) in tab:
                     return f'({tab[type(op)]} N {a} {b})', 'T'
                 if isinstance(op, ast.Pow):
                     if isinstance(n.right, ast.Constant) and n.right.value == 2:
-                        return f'(mul N {a} {a})', 'T'
+                        return f'(nmul N {a} {a})', 'T'
                     if isinstance(n.right, ast.Constant) and n.right.value == 3:
-                        return f'(mul N (mul N {a} {a}) {a})', 'T'
-                    return f'(pow N {a} {b})', 'T'
+                        return f'(nmul N (nmul N {a} {a}) {a})', 'T'
+                    return f'(npow N {a} {b})', 'T'
                 self.fail(n, 'operator not supported in Num mode')
         if isinstance(n, ast.Compare):
             parts = []
@@ -305,12 +305,12 @@ class Emitter:
                         a = f'(ofZ N {a})'
                     if tb == 'Z':
                         b = f'(ofZ N {b})'
-                    tab = {ast.Lt: ('ltb', 0), ast.LtE: ('leb', 0), ast.Gt: ('ltb', 1), ast.GtE: ('leb', 1), ast.Eq: ('eqb', 0)}
+                    tab = {ast.Lt: ('nltb', 0), ast.LtE: ('nleb', 0), ast.Gt: ('nltb', 1), ast.GtE: ('nleb', 1), ast.Eq: ('neqb', 0)}
                     if type(op) in tab:
                         f, sw = tab[type(op)]
                         parts.append(f'({f} N {b} {a})' if sw else f'({f} N {a} {b})')
                     elif isinstance(op, ast.NotEq):
-                        parts.append(f'(negb (eqb N {a} {b}))')
+                        parts.append(f'(negb (neqb N {a} {b}))')
                     else:
                         self.fail(n, 'comparison operator')
                 left = right
@@ -372,13 +372,13 @@ class Emitter:
                     return f'(negb {a})', 'B'
                 if base == 'square' and len(n.args) == 1:
                     a, ta = self.e(n.args[0])
-                    return (f'({a} * {a})', 'Z') if m == 'Z' else (f'(mul N {a} {a})', 'T')
+                    return (f'({a} * {a})', 'Z') if m == 'Z' else (f'(nmul N {a} {a})', 'T')
                 if base == 'erf' and len(n.args) == 1 and m == 'Num':
                     a, _ = self.e(n.args[0])
-                    return f'(erf N {a})', 'T'
+                    return f'(nerf N {a})', 'T'
                 if base in ('isnan',) and m == 'Num':
                     a, _ = self.e(n.args[0])
-                    return f'(isnan N {a})', 'B'
+                    return f'(nisnan N {a})', 'B'
                 if base in NP_UNARY and len(n.args) >= 1 and not n.keywords or (base in ('around', 'round') and len(n.args) == 1):
                     if base in ('around', 'round') and (len(n.args) != 1 or n.keywords):
                         # np.around(x, d) = rint(x*10^d)/10^d
@@ -386,7 +386,7 @@ class Emitter:
                             a, _ = self.e(n.args[0])
                             d = n.args[1].value
                             p = f'(ofZ N {10**d})'
-                            return f'(div N (rint N (mul N {a} {p})) {p})', 'T'
+                            return f'(ndiv N (nrint N (nmul N {a} {p})) {p})', 'T'
                         self.fail(n, 'np.around form')
                     a, ta = self.e(n.args[0])
                     if m == 'Z':
@@ -395,7 +395,7 @@ class Emitter:
                         self.fail(n, 'unary function in Z mode')
                     if ta == 'Z':
                         a = f'(ofZ N {a})'
-                    return f'({NP_UNARY[base]} N {a})', 'T'
+                    return f'(n{NP_UNARY[base]} N {a})', 'T'
                 if base in NP_BINARY and len(n.args) == 2 and not n.keywords:
                     a, ta = self.e(n.args[0])
                     b, tb = self.e(n.args[1])
@@ -408,13 +408,13 @@ class Emitter:
                         a = f'(ofZ N {a})'
                     if tb == 'Z':
                         b = f'(ofZ N {b})'
-                    return f'({NP_BINARY[base]} N {a} {b})', 'T'
+                    return f'(n{NP_BINARY[base]} N {a} {b})', 'T'
                 if fn in ('min', 'max') and len(n.args) == 2:
                     a, ta = self.e(n.args[0])
                     b, tb = self.e(n.args[1])
                     if m == 'Z':
                         return f"({'Z.min' if fn == 'min' else 'Z.max'} {a} {b})", 'Z'
-                    return f"({fn} N {a} {b})", 'T'
+                    return f"(n{fn} N {a} {b})", 'T'
             # any other call: abstract it if the kernel expects it
             return self.abstract(n, ast.unparse(n), None)
         if isinstance(n, ast.Tuple) and len(n.elts) == 1:
@@ -517,6 +517,10 @@ def main(argv):
         only = set(argv[1:])
     with open(cfg, 'rb') as f:
         spec = tomllib.load(f)
+    import glob
+    for extra in sorted(glob.glob(os.path.join(HERE, 'kernels.d', '*.toml'))):
+        with open(extra, 'rb') as f:
+            spec.setdefault('kernel', []).extend(tomllib.load(f).get('kernel', []))
     trees = {}
     mods = {}
     report = {'kernels': {}, 'errors': []}
